@@ -20,12 +20,26 @@ EXHAUSTIVE = {"quick": False, "thorough": False}
 TECHNIQUE = ("Lean 4 theorems about the executable sync model (second loop of the directory walk, ByKey recursion, "
              "backup-and-restore context) + differential correspondence against the real sync entry points on "
              "conflicting project pairs")
-LEVEL_TEXT = "see Signac/Properties/C14.lean"
-LEVEL_NOTE = ""
+LEVEL_TEXT = ('Proved in Lean (Signac/Properties/C14.lean), same model as C13, for all job directory pairs / documents / options: a file '
+    'on both sides (at any depth reached through common directories) that differs under the comparison in force and is not '
+    "excluded carries the source's bytes after a successful real sync_jobs iff the strategy's verdict is 'overwrite' and is "
+    'exactly the old file otherwise (file_overwrite_iff); unless it is such an approved conflict it is untouched in every run, '
+    'failed and dry ones included (file_untouched_otherwise); with no strategy such a conflict makes sync_jobs raise '
+    'FileSyncConflict with the file untouched (no_strategy_conflict); a document key at any depth whose source value is not a '
+    'mapping and differs is overwritten iff the key strategy selects its dotted key, otherwise kept and — without key strategy — '
+    'reported in DocumentSyncConflict (bykey_selective); whenever the merge of a non-empty destination document raises, the '
+    'destination directory is node for node what it was (doc_rollback); DocSync.update sets every source key and nothing else '
+    '(update_overwrites_all); NO_SYNC / COPY never merge (nosync_none). Compared with the real entry points on generated '
+    "conflicting pairs; the oracle checks every conflicting file / key against the strategy's verdict and the rollback.")
+LEVEL_NOTE = ("'Differs' without deep is filecmp's shallow rule (differs_shallow_rule): equal (size, mtime) => same; content comparison "
+    'regardless of timestamps is C15 (deep). Proved for DocumentSyncConflict: every unselected conflicting key is in the payload; '
+    'the converse (nothing else is in it) is checked by the oracle only. A mapping in the source facing a non-mapping in the '
+    'destination raises TypeError in the code (modelled, rolled back; the theorems exclude it by hypothesis typeErr = false). '
+    'Model = code with fixes F-13, F-14a, F-15d applied; carve-outs as in C13. Trusted base as in C13.')
 
 
 def generate(tier, rng):
-    n = 5000 if tier == "quick" else 50000
+    n = 5000 if tier == "quick" else 75000
     for _ in range(n):
         yield sc.gen_case(rng, "c14")
 
